@@ -51,15 +51,15 @@ def ChunkAnswers (cmd op : UInt8) : Prop :=
   ∀ (d r : Bytes), respConforms (CLA :: cmd :: op :: d) (.data r) = true →
     3 ≤ r.length ∧ (r[2]? = some op → 4 ≤ r.length)
 
-theorem sendChunksAux_safe (cmd op : UInt8) (nexts : List UInt8) (data : Bytes) (full : Bool)
+theorem sendChunksAux_safe (lf : Bool) (cmd op : UInt8) (nexts : List UInt8) (data : Bytes) (full : Bool)
     (hx : cmd.toNat ≠ 0xFF ∧ cmd.toNat ≠ 0xFA) (hc : ChunkAnswers cmd op)
     (s : List Resp) : ∀ (offset req : Nat),
-    pairsConform (sendChunksAux cmd op nexts data full offset req s).2.1 s = true →
+    pairsOk lf (sendChunksAux cmd op nexts data full offset req s).2.1 s = true →
       match (sendChunksAux cmd op nexts data full offset req s).1 with
       | .ok p => ∃ d, respConforms (CLA :: cmd :: op :: d) (.data p.2) = true
-      | .error e => Ledger.isResult e = true := by
+      | .error e => Ledger.isResult e = true ∨ (lf = true ∧ isLink e = true) := by
   induction s with
-  | nil => intro offset req h; simp [sendChunksAux, pairsConform] at h
+  | nil => intro offset req h; simp [sendChunksAux, pairsOk] at h
   | cons r rest ih =>
     intro offset req
     unfold sendChunksAux
@@ -67,9 +67,11 @@ theorem sendChunksAux_safe (cmd op : UInt8) (nexts : List UInt8) (data : Bytes) 
     cases r with
     | data b =>
       simp only [classify]
+      have hro : ∀ a, respOk lf a (.data b) = respConforms a (.data b) := by
+        intro a; simp [respOk, isFault]
       cases h2 : b[2]? with
       | none =>
-        simp only [pairsConform, Bool.and_true]
+        simp only [pairsOk, Bool.and_true, hro]
         intro hr
         have := (hc _ b hr).1
         have : b[2]? ≠ none := by
@@ -78,65 +80,70 @@ theorem sendChunksAux_safe (cmd op : UInt8) (nexts : List UInt8) (data : Bytes) 
       | some rop =>
         simp only
         split
-        · simp only [pairsConform, Bool.and_true]
+        · simp only [pairsOk, Bool.and_true, hro]
           intro hr; exact ⟨_, hr⟩
         · split
           · split
-            · simp only [pairsConform, Bool.and_true]
+            · simp only [pairsOk, Bool.and_true, hro]
               intro hr; exact ⟨_, hr⟩
-            · simp only [pairsConform, Bool.and_true]
+            · simp only [pairsOk, Bool.and_true, hro]
               intro hr; exact ⟨_, hr⟩
           · rename_i hne
             have hop : rop = op := by simpa using hne
             cases h3 : b[3]? with
             | none =>
-              simp only [pairsConform, Bool.and_true]
+              simp only [pairsOk, Bool.and_true, hro]
               intro hr
               have := (hc _ b hr).2 (by rw [h2, hop])
               have : b[3]? ≠ none := by
                 rw [List.getElem?_eq_getElem (by omega)]; simp
               exact absurd h3 this
             | some n =>
-              simp only [pairsConform, Bool.and_eq_true]
+              simp only [pairsOk, Bool.and_eq_true]
               intro hr
               exact ih _ _ hr.2
     | sw x =>
       simp only [classify]
       by_cases hu : isUserDefined x = true
       · simp [hu, Ledger.isResult]
-      · simp [hu, pairsConform, respConforms]
-    | timeout => simp [classify, pairsConform, respConforms]
-    | other => simp [classify, pairsConform, respConforms]
+      · simp [hu, pairsOk, respOk, respConforms, isFault]
+    | timeout =>
+      simp only [classify, pairsOk, respOk, respConforms, isFault, Bool.and_true, Bool.false_or]
+      intro hr
+      exact Or.inr ⟨hr, by simp [isLink]⟩
+    | other => simp [classify, pairsOk, respOk, respConforms, isFault]
     | writeErr =>
-      simp only [classify, pairsConform, respConforms, List.getD_cons_succ, List.getD_cons_zero,
+      simp only [classify, pairsOk, respOk, respConforms, isFault, List.getD_cons_succ, List.getD_cons_zero,
         Bool.and_true, Bool.or_eq_true, beq_iff_eq]
       intro hr
-      rcases hr with h | h
+      rcases hr with (h | h) | h
       · exact absurd h hx.1
       · exact absurd h hx.2
+      · exact Or.inr ⟨h, by simp [isLink]⟩
     | readErr =>
-      simp only [classify, pairsConform, respConforms, List.getD_cons_succ, List.getD_cons_zero,
+      simp only [classify, pairsOk, respOk, respConforms, isFault, List.getD_cons_succ, List.getD_cons_zero,
         Bool.and_true, Bool.or_eq_true, beq_iff_eq]
       intro hr
-      rcases hr with h | h
+      rcases hr with (h | h) | h
       · exact absurd h hx.1
       · exact absurd h hx.2
+      · exact Or.inr ⟨h, by simp [isLink]⟩
 
 /-- the chunked transfer against a conforming device: it ends with a conforming answer of the
     same exchange kind, or with an error status of the device's own range -/
-theorem sendChunks_safe (cmd op : UInt8) (nexts : List UInt8) (data : Bytes) (full : Bool) (init : Nat)
+theorem sendChunks_safe {lf : Bool} (cmd op : UInt8) (nexts : List UInt8) (data : Bytes) (full : Bool) (init : Nat)
     (hx : cmd.toNat ≠ 0xFF ∧ cmd.toNat ≠ 0xFA) (hc : ChunkAnswers cmd op) :
-    Safe (sendChunks cmd op nexts data full init)
+    Safe lf (sendChunks cmd op nexts data full init)
       (fun p => ∃ d, respConforms (CLA :: cmd :: op :: d) (.data p.2) = true)
       (fun e => Ledger.isResult e = true) := by
   intro w hci hconf
   unfold sendChunks at hconf ⊢
-  have h := sendChunksAux_safe cmd op nexts data full hx hc w.script 0 init
+  have h := sendChunksAux_safe lf cmd op nexts data full hx hc w.script 0 init
   generalize sendChunksAux cmd op nexts data full 0 init w.script = r at h hconf
   obtain ⟨v, as, s'⟩ := r
   simp only at h hconf ⊢
   refine ⟨hci, ?_⟩
-  unfold deviceConforms at hconf
+  unfold deviceOk at hconf
   rw [apdus_map_apdu] at hconf
   simp only [Bool.and_eq_true] at hconf
   have h' := h hconf.1
